@@ -160,11 +160,12 @@ def build_model(case, rng):
 
 
 # ----------------------------------------------------------------------------- dense reference (independent of Mpo)
-def dense_from_terms(model):
+def dense_from_terms(model, terms=None):
+    """dense matrix of a list of operator terms (default: the model's own Hamiltonian) on the basis order of `model`"""
     dims = [b.nbas for b in model.basis]
     D = int(np.prod(dims))
     H = np.zeros((D, D))
-    for term in model.ham_terms:
+    for term in (model.ham_terms if terms is None else terms):
         ops, factor = term.split_elementary(model.dof_to_siteidx)
         mats = [np.eye(d) for d in dims]
         for op in ops:
@@ -195,6 +196,60 @@ def total_qn(model):
     for q in qs:
         tot = (tot[:, None, :] + q[None, :, :]).reshape(-1, q.shape[1])
     return tot
+
+
+# ----------------------------------------------------------------------------- the operator handed to the optimiser
+def extra_terms(model, rng):
+    """a perturbation V that respects the quantum numbers of the basis (diagonal one- and two-site terms, nearest-neighbour hops of
+    equal label change): the operator handed to the optimiser is H0 + V, NOT the model's own Hamiltonian"""
+    from renormalizer.model.basis import BasisHalfSpin as _S, BasisSHO as _B, BasisSimpleElectron as _E
+    out = []
+    bs = model.basis
+    for b in bs:
+        if isinstance(b, _S):
+            out.append(Op("sigma_z", b.dof, float(rng.uniform(-0.8, 0.8))))
+        elif isinstance(b, _B):
+            out.append(Op(r"b^\dagger b", b.dof, float(rng.uniform(0.1, 0.6))))
+        elif isinstance(b, _E):
+            out.append(Op(r"a^\dagger a", b.dof, float(rng.uniform(-0.8, 0.8))))
+    spins = [b for b in bs if isinstance(b, _S)]
+    for x, y in zip(spins[:-1], spins[1:]):
+        if np.array_equal(np.array(x.sigmaqn), np.array(y.sigmaqn)):
+            out.append(Op("sigma_z sigma_z", [x.dof, y.dof], float(rng.uniform(-0.7, 0.7))))
+            t = float(rng.uniform(-0.7, 0.7))
+            out += [Op("sigma_+ sigma_-", [x.dof, y.dof], t), Op("sigma_- sigma_+", [x.dof, y.dof], t)]
+    return out
+
+
+def given_operator(case, model, rng):
+    """-> (model to give to Mps / Mpo, mpo handed to the optimiser, description {terms, scale, offset} of its dense meaning
+          H_given = scale * sum(terms) - offset)"""
+    hv = case.get("hvar")
+    h0 = list(model.ham_terms)
+    if not hv:
+        return model, Mpo(model), {"terms": h0, "scale": 1.0, "offset": 0.0}
+    from renormalizer.utils import Quantity
+    if hv == "terms":                     # explicit terms=, different from model.ham_terms
+        v = extra_terms(model, rng)
+        return model, Mpo(model, terms=h0 + v), {"terms": h0 + v, "scale": 1.0, "offset": 0.0}
+    if hv == "offset":                    # the MPO's own offset
+        c = float(rng.uniform(-2.0, 2.0))
+        return model, Mpo(model, offset=Quantity(c)), {"terms": h0, "scale": 1.0, "offset": c}
+    if hv == "scale":                     # scaled MPO (a negative factor turns the spectrum over)
+        c = float(rng.choice([0.5, 1.7, -0.6, -1.3]))
+        return model, Mpo(model).scale(c), {"terms": h0, "scale": c, "offset": 0.0}
+    if hv == "sum":                       # sum of two MPOs
+        v = extra_terms(model, rng)
+        return model, Mpo(model).add(Mpo(model, terms=v)), {"terms": h0 + v, "scale": 1.0, "offset": 0.0}
+    if hv == "empty":                     # model without Hamiltonian terms, the operator given explicitly
+        m2 = Model(model.basis, [])
+        return m2, Mpo(m2, terms=h0), {"terms": h0, "scale": 1.0, "offset": 0.0}
+    raise ValueError(hv)
+
+
+def dense_given(model, given):
+    h = dense_from_terms(model, given["terms"]) * given["scale"]
+    return h - given["offset"] * np.eye(len(h))
 
 
 # ----------------------------------------------------------------------------- hooks
@@ -405,7 +460,8 @@ def run_case(case):
     t0 = time.time()
     try:
         model = build_model(case, rng)
-        hd0 = dense_from_terms(model)
+        model, mpo, given = given_operator(case, model, rng)
+        hd0 = dense_given(model, given)
         tot = total_qn(model)
         # sector: the quantum number of a random product state (never empty); "none" -> everything
         if case.get("sector") == "rand":
@@ -424,8 +480,8 @@ def run_case(case):
         off = hd0[np.ix_(sector0, ~sector0)]
         out["qn_commute_err"] = float(np.abs(off).max()) if off.size else 0.0
         out["herm_err"] = float(np.abs(hd0 - hd0.conj().T).max())
-        mpo = Mpo(model)
         out["mpo_dense_err"] = float(np.abs(mpo.todense() - hd0).max())
+        out["differs_from_model"] = float(np.abs(hd0 - dense_from_terms(model)).max()) if model.ham_terms else -1.0
         omega = case.get("omega")
         w0 = np.linalg.eigvalsh(hd0[np.ix_(sector0, sector0)])
         if omega is not None:
@@ -495,7 +551,7 @@ def run_case(case):
     def dense(mdl):
         key = tuple(str(b.dofs) for b in mdl.basis)
         if key not in cache:
-            h = dense_from_terms(mdl)
+            h = dense_given(mdl, given)
             t = total_qn(mdl)
             sec = np.all(t == np.array(qn)[None, :], axis=1)
             if omega is not None:
@@ -536,7 +592,7 @@ def run_case(case):
                 d["dense_energy"] = float(np.real(np.vdot(psi, hd @ psi)) / n2) * inverse
                 hmodel = Mpo(st.model) if case.get("ofs") else mpo
                 d["expectation_H"] = float(np.real(st.expectation(hmodel)))
-                hplain = dense_from_terms(st.model)
+                hplain = dense_given(st.model, given)
                 d["dense_H"] = float(np.real(np.vdot(psi, hplain @ psi)) / n2)
                 d["bond_dims"] = [int(x) for x in st.bond_dims]
                 d["qntot"] = np.asarray(st.qntot).tolist()
